@@ -127,6 +127,18 @@ CHECKS['C15'] = dict(
          'quick tier), dimensions (2,3) quick / three pairs thorough; arithmetic with empty-vector operands excluded (stated precondition '
          'size>=1); SQuIDS::Evolve excluded (GSL ODE driver has no IR); one logical thread.',
     design='§3 C15')
+CHECKS['C09'] = dict(
+    text='The expression-shape space {=,+=,-=,construct} x 21 operation/value-category forms (sum, difference, negation, scalar product, '
+         'commutator, anticommutator, both evolution forms, element-wise product and a user functor) x target storage {empty, self-owned '
+         'same/other size, external same/other size} x operand storage x alias {none, v=a, v=b, v and a distinct objects over one user '
+         'buffer, a=b} x every true guarantee<> flag subset is enumerated (1728 shapes per dimension); each statement is executed '
+         'symbolically with all components, the scalar and the evolution table symbolic, and compared (normal-form polynomials, raw '
+         'object state, user buffers) with the twin: the same operation evaluated by the real kernels into a fresh temporary from fresh '
+         'non-aliased operands, then applied component-wise. Illegal shapes must throw with the target unchanged; documented '
+         'no-allocation shapes must not call operator new[]. A symbolic scalar means special-value branches (e.g. c==0) are explored.',
+    note='Trusted: clang-14 -O1 IR; irsym heap model; twin = the library\'s own kernels (their content is C02/C03); quick tier: all shapes '
+         'for d=2, seeded samples for d=3..6; thorough: all shapes for d=2..6; rvalue operands are distinct objects from the target.',
+    design='§3 C09')
 NA_REASON = 'check not built yet (framework under construction; see DESIGN.md)'
 NA = {}
 
